@@ -303,6 +303,8 @@ class Machine:
             return [self.eval(e) for e in n.elts]
         if isinstance(n, ast.UnaryOp) and isinstance(n.op, ast.Not):
             return not self.truth(self.eval(n.operand))
+        if isinstance(n, ast.UnaryOp) and isinstance(n.op, ast.USub) and isinstance(n.operand, ast.Constant) and isinstance(n.operand.value, int):
+            return -n.operand.value
         if isinstance(n, ast.BoolOp):
             if isinstance(n.op, ast.And):
                 v: Any = True
@@ -341,6 +343,13 @@ class Machine:
                 if idx is OTHER or idx is None or idx not in base:
                     raise _PyExc('KeyError')
                 return base[idx]
+            if isinstance(base, list) and isinstance(idx, int) and not isinstance(idx, bool):
+                # element of a modelled accumulator list: only the last element is part of the abstract state
+                if idx != -1:
+                    raise AnalysisError(f'{self.mod.relpath}:{n.lineno}: `{ast.unparse(n)}` looks deeper into the accumulator than its last element (not modelled)')
+                if not base:
+                    raise _PyExc('IndexError')
+                return base[-1]
             raise AnalysisError(f'{self.mod.relpath}:{n.lineno}: subscript of non-table `{ast.unparse(n)}`')
         if isinstance(n, ast.Call):
             return self.call(n)
@@ -405,6 +414,12 @@ class Machine:
                     raise _PyExc('TypeError-None-appended')
                 self.lists[recvname].append(v)
                 return None
+            if recvname in self.lists and m == 'pop' and not n.args:
+                if recvname not in self.written:
+                    self.reads_before_write.add(recvname)
+                if not self.lists[recvname]:
+                    raise _PyExc('IndexError')
+                return self.lists[recvname].pop()
             if m == 'join' and isinstance(n.func.value, ast.Constant) and n.func.value.value == '' and len(n.args) == 1:
                 an = dotted(n.args[0])
                 if an in self.lists:
